@@ -428,7 +428,8 @@ def _pow(a, b):
     bad = bad | ((x < 0) & (ye > 0))  # integer exponent must be exact
     bad = bad | ((xe > 0) & (np.abs(x) <= 2 * xe))  # base not safely away from 0 / sign change
     if a.inty and b.inty:
-        bad = bad | (y < 0)  # integer ** negative integer: numpy integer types refuse it, Python ints do not (type semantics, outside the property)
+        # integer ** negative integer: numpy integer types refuse it (for the whole array), Python ints do not: type semantics, outside the property
+        bad = bad | np.any(y < 0)
     r = np.power(np.where(bad, 1.0, x), np.where(bad, 1.0, y))
     ax = np.where((x == 0) | bad, 1.0, np.abs(x))
     err = np.abs(r) * (np.abs(y) * xe / ax + np.abs(np.log(ax)) * ye)
